@@ -15,6 +15,7 @@ import (
 	"sync/atomic"
 	"time"
 
+	"github.com/nextdns/nextdns/config"
 	"github.com/nextdns/nextdns/discovery"
 	"github.com/nextdns/nextdns/proxy"
 	"github.com/nextdns/nextdns/resolver"
@@ -251,7 +252,7 @@ func init() {
 
 		dur := 4 * time.Second
 		if c.tier == "thorough" {
-			dur = 20 * time.Second
+			dur = 33 * time.Second // past every 30 s refresh interval of the daemon (neighbour tables and the like)
 		}
 		stop := time.Now().Add(dur)
 		var wg sync.WaitGroup
@@ -285,6 +286,34 @@ func init() {
 					}
 				}
 			}(ci)
+		}
+		// the configuration objects run.go consults for every query, as concurrent handlers do: profile rules of every kind
+		// (interface-bound, CIDR, MAC, default) and forwarder rules, looked up from several goroutines for the whole soak
+		var profs config.Profiles
+		for _, v := range []string{"lo=ccc333", "10.0.0.0/8=aaa111", "00:11:22:33:44:55=ddd444", "bbb222"} {
+			_ = profs.Set(v)
+		}
+		var fwds config.Forwarders
+		for _, v := range []string{"corp.=10.0.0.53", "lan.=192.168.1.1", "9.9.9.9"} {
+			_ = fwds.Set(v)
+		}
+		var cfgBad int64
+		for g := 0; g < 3; g++ {
+			wg.Add(1)
+			go func(g int) {
+				defer wg.Done()
+				mac, _ := net.ParseMAC("00:11:22:33:44:55")
+				for time.Now().Before(stop) {
+					if profs.Get(net.IPv4(10, 1, 2, byte(g)), net.IPv4(192, 0, 2, 1), nil) != "aaa111" ||
+						profs.Get(net.IPv4(172, 16, 0, 1), net.IPv4(127, 0, 0, 1), nil) != "ccc333" ||
+						profs.Get(net.IPv4(172, 16, 0, 1), net.IPv4(192, 0, 2, 1), mac) != "ddd444" ||
+						profs.Get(net.IPv4(172, 16, 0, 1), net.IPv4(192, 0, 2, 1), nil) != "bbb222" ||
+						fwds.Get("host.corp.") == nil {
+						atomic.AddInt64(&cfgBad, 1)
+					}
+					time.Sleep(200 * time.Microsecond)
+				}
+			}(g)
 		}
 		// background: file rewrites + forced expiry, elections, health flips
 		wg.Add(1)
@@ -328,6 +357,9 @@ func init() {
 		}
 		if m := atomic.LoadInt64(&misrouted); m > 0 {
 			out = fmt.Sprintf("misrouted=%d requests reached an endpoint with another request's host or path", m)
+		}
+		if n := atomic.LoadInt64(&cfgBad); n > 0 {
+			out = fmt.Sprintf("cfg=%d concurrent lookups in the profile / forwarder rules (rules and clients unchanged) gave an answer no sequential order gives", n)
 		}
 		c.Emit("racesoak", out)
 		c.Stat("soak")
